@@ -83,48 +83,40 @@ Inductive step :=
 | SUnlink (p : path)                                 (* Path.unlink(missing_ok=True) *)
 | SRmdirIfEmpty (d : dir).                           (* if d.exists() and not any(d.iterdir()): d.rmdir() *)
 
-Definition sdir (d : dir) : string := match d with None => "." | Some s => s end.
-Definition sflav (f : flavour) : string := match f with Pk => ".pckl" | Cp => ".cpckl" end.
-Definition sname (n : name) : string :=
-  match n with
-  | NFinal s f => (s ++ sflav f)%string
-  | NTmp s f => (s ++ sflav f ++ ".tmp")%string
-  | NUser s => s
-  end.
-Definition spath (p : path) : string :=
-  match fst p with None => sname (snd p) | Some d => (d ++ "/" ++ sname (snd p))%string end.
+(* the os-level calls a step makes (the trace the harness records on the real code) *)
+Inductive ev :=
+| EMkdir (d : dir) | ECreate (p : path) | EWrite (p : path) | EClose (p : path)
+| ERename (p q : path) | EUnlink (p : path) | EScan (d : dir) | ERmdir (d : dir).
 
-(* one step: new file system, whether OSError was raised (rmdir of the cwd), and the
-   os-level calls it makes (the trace the harness records on the real code) *)
-Definition exec (s : step) (f : fs) : fs * bool * list string :=
+(* one step: new file system, whether OSError was raised (rmdir of the cwd), its calls *)
+Definition exec (s : step) (f : fs) : fs * bool * list ev :=
   match s with
   | SMkdir d =>
       (match d with
        | None => f
        | Some x => if mems x (dirs f) then f else mkfs (dirs f ++ [x]) (files f)
-       end, false, [("mkdir " ++ sdir d)%string])
-  | SCreate p => (set_file p (Partial 0) f, false, [("create " ++ spath p)%string])
-  | SWrite p c n => (set_file p c f, false, [("write " ++ spath p)%string])
-  | SClose p => (f, false, [("close " ++ spath p)%string])
+       end, false, [EMkdir d])
+  | SCreate p => (set_file p (Partial 0) f, false, [ECreate p])
+  | SWrite p c n => (set_file p c f, false, [EWrite p])
+  | SClose p => (f, false, [EClose p])
   | SRename p q =>
       (match read f p with
        | Some c => set_file q c (rm_file p f)
        | None => f
-       end, false, [("rename " ++ spath p ++ " " ++ spath q)%string])
-  | SUnlink p => (rm_file p f, false, [("unlink " ++ spath p)%string])
+       end, false, [ERename p q])
+  | SUnlink p => (rm_file p f, false, [EUnlink p])
   | SRmdirIfEmpty d =>
       if dir_exists f d then
         if dir_empty f d then
           match d with
-          | None => (f, true, ["scan ."; "rmdir ."])          (* os.rmdir('.') -> EINVAL *)
-          | Some x => (mkfs (remove1 String.eqb x (dirs f)) (files f), false,
-                       [("scan " ++ x)%string; ("rmdir " ++ x)%string])
+          | None => (f, true, [EScan d; ERmdir d])             (* os.rmdir('.') -> EINVAL *)
+          | Some x => (mkfs (remove1 String.eqb x (dirs f)) (files f), false, [EScan d; ERmdir d])
           end
-        else (f, false, [("scan " ++ sdir d)%string])
+        else (f, false, [EScan d])
       else (f, false, [])
   end.
 
-Fixpoint run_steps (ss : list step) (f : fs) : fs * bool * list string :=
+Fixpoint run_steps (ss : list step) (f : fs) : fs * bool * list ev :=
   match ss with
   | [] => (f, false, [])
   | s :: r =>
@@ -132,11 +124,11 @@ Fixpoint run_steps (ss : list step) (f : fs) : fs * bool * list string :=
       let '(f2, e2, t2) := run_steps r f1 in
       (f2, e1 || e2, t1 ++ t2)
   end.
-Definition fs_of (x : fs * bool * list string) : fs := fst (fst x).
+Definition fs_of (x : fs * bool * list ev) : fs := fst (fst x).
 
 (* the process dies after completing the first i steps; if step i is a write, k of its n
    bytes have reached the file *)
-Definition crash_at (ss : list step) (i k : nat) (f : fs) : fs * list string :=
+Definition crash_at (ss : list step) (i k : nat) (f : fs) : fs * list ev :=
   let '(f1, _, t1) := run_steps (firstn i ss) f in
   match nth_error ss i with
   | Some (SWrite p c n) => if Nat.ltb k n then (set_file p (Partial k) f1, t1) else (f1, t1)
@@ -168,7 +160,7 @@ Definition save_ok (k : kind) (fb : bool) : bool := pickles k Pk || (fb && pickl
 Inductive sres := SOk | SFail | SOsErr | SCrashed.
 
 Definition save (l : loc) (fb : bool) (c : cls) (v : Z) (k : kind) (n g : nat)
-           (crash : option (nat * nat)) (f : fs) : fs * sres * list string :=
+           (crash : option (nat * nat)) (f : fs) : fs * sres * list ev :=
   let ss := save_steps l fb c v k n g in
   match crash with
   | Some (i, j) =>
@@ -197,7 +189,7 @@ Definition has_saved (f : fs) (l : loc) : bool := isSome (read f (fin l Pk)) || 
 
 Definition delete_steps (f : fs) (l : loc) : list step :=
   (if has_saved f l then [SUnlink (fin l Pk); SUnlink (fin l Cp)] else []) ++ [SRmdirIfEmpty (fst l)].
-Definition delete (l : loc) (f : fs) : fs * bool * list string := run_steps (delete_steps f l) f.
+Definition delete (l : loc) (f : fs) : fs * bool * list ev := run_steps (delete_steps f l) f.
 
 (* ---- Node.load, construction ---------------------------------------------------------- *)
 Definition node := (cls * Z)%type.
@@ -214,7 +206,7 @@ Definition default_loc (label : string) : loc := (Some label, "picklestorage").
 
 (* Node.__init__ -> _after_node_setup(delete_existing_savefiles, autoload) for a fresh node
    of class c (state 0) labelled `label` *)
-Definition ctor (label : string) (c : cls) (del auto : bool) (f : fs) : fs * (node * nres) * list string :=
+Definition ctor (label : string) (c : cls) (del auto : bool) (f : fs) : fs * (node * nres) * list ev :=
   let l := default_loc label in
   let '(f1, e, t) := if del then delete l f else (f, false, []) in
   if e then (f1, ((c, 0%Z), NOsErr), t)
@@ -298,7 +290,35 @@ Definition onres (r : nres) : obs :=
       end).
 Definition osres (r : sres) : obs :=
   OS (match r with SOk => "ok" | SFail => "SaveError" | SOsErr => "OSError" | SCrashed => "crashed" end).
-Definition otrace (t : list string) : obs := OL (map OS t).
+
+(* trace events as numbers relative to the scenario's universe of locations / directories *)
+Fixpoint index_of {A} (eqb : A -> A -> bool) (x : A) (l : list A) (i : nat) : option nat :=
+  match l with [] => None | y :: r => if eqb x y then Some i else index_of eqb x r (S i) end.
+Definition pcode (locs : list loc) (p : path) : Z :=
+  let at_loc s k := match index_of loc_eqb (fst p, s) locs 0 with
+                    | Some i => (10 * (Z.of_nat i + 1) + k)%Z | None => 0%Z end in
+  match snd p with
+  | NFinal s Pk => at_loc s 0%Z | NFinal s Cp => at_loc s 1%Z
+  | NTmp s Pk => at_loc s 2%Z | NTmp s Cp => at_loc s 3%Z
+  | NUser _ => 9%Z
+  end.
+Definition dcode (ds : list string) (d : dir) : Z :=
+  match d with
+  | None => 1%Z
+  | Some x => match index_of String.eqb x ds 0 with Some i => (2 + Z.of_nat i)%Z | None => 0%Z end
+  end.
+Definition oev (locs : list loc) (ds : list string) (e : ev) : obs :=
+  let one v a := OZ (v * 10000 + a * 100)%Z in
+  match e with
+  | EMkdir d => one 1%Z (dcode ds d)
+  | ECreate p => one 2%Z (pcode locs p)
+  | EWrite p => one 3%Z (pcode locs p)
+  | EClose p => one 4%Z (pcode locs p)
+  | ERename p q => OZ (5 * 10000 + pcode locs p * 100 + pcode locs q)%Z
+  | EUnlink p => one 6%Z (pcode locs p)
+  | EScan d => one 7%Z (dcode ds d)
+  | ERmdir d => one 8%Z (dcode ds d)
+  end.
 
 (* the part of the file system the scenario can touch, in a fixed order *)
 Definition snapshot (locs : list loc) (ds : list string) (users : list path) (f : fs) : obs :=
@@ -308,30 +328,34 @@ Definition snapshot (locs : list loc) (ds : list string) (users : list path) (f 
        OL (map (fun d => ob (dir_exists f (Some d))) ds);
        OL (map (fun p => ob (isSome (read f p))) users) ].
 
-Definition obs_op (locs : list loc) (ds : list string) (users : list path) (o : op) (f : fs) : fs * obs :=
-  let snap := snapshot locs ds users in
+(* an unchanged snapshot is printed as "=" *)
+Definition obs_op (locs : list loc) (ds : list string) (users : list path) (o : op) (f : fs) (prev : obs)
+  : fs * obs * obs :=
+  let snap f1 := snapshot locs ds users f1 in
+  let sq f1 := if obs_eqb (snap f1) prev then OS "=" else snap f1 in
   match o with
   | OSave l fb c v k n g crash =>
       let '(f1, r, t) := save l fb c v k n g crash f in
-      (f1, OL [OS "save"; osres r; otrace t; snap f1])
+      (f1, OL [OS "save"; osres r; OL (map (oev locs ds) t); sq f1], snap f1)
   | OLoad l c w =>
       let '((c1, v1), r) := node_load f l (c, w) in
-      (f, OL [OS "load"; onres r; OL [ocls c1; OZ v1]; snap f])
+      (f, OL [OS "load"; onres r; OL [ocls c1; OZ v1]; sq f], snap f)
   | OCtor label c del auto =>
       let '(f1, ((c1, v1), r), t) := ctor label c del auto f in
-      (f1, OL [OS "ctor"; onres r; OL [ocls c1; OZ v1]; otrace t; snap f1])
+      (f1, OL [OS "ctor"; onres r; OL [ocls c1; OZ v1]; OL (map (oev locs ds) t); sq f1], snap f1)
   | ODelete l =>
       let '(f1, e, t) := delete l f in
-      (f1, OL [OS "delete"; OS (if e then "OSError" else "ok"); otrace t; snap f1])
+      (f1, OL [OS "delete"; OS (if e then "OSError" else "ok"); OL (map (oev locs ds) t); sq f1], snap f1)
   | OTouch d s =>
-      let f1 := touch d s f in (f1, OL [OS "touch"; snap f1])
+      let f1 := touch d s f in (f1, OL [OS "touch"; sq f1], snap f1)
   end.
 
-Fixpoint obs_ops (locs : list loc) (ds : list string) (users : list path) (ops : list op) (f : fs) : list obs :=
+Fixpoint obs_ops (locs : list loc) (ds : list string) (users : list path) (ops : list op) (f : fs) (prev : obs)
+  : list obs :=
   match ops with
   | [] => []
-  | o :: r => let '(f1, x) := obs_op locs ds users o f in x :: obs_ops locs ds users r f1
+  | o :: r => let '(f1, x, p1) := obs_op locs ds users o f prev in x :: obs_ops locs ds users r f1 p1
   end.
 
 Definition obs_run (locs : list loc) (ds : list string) (users : list path) (ops : list op) : obs :=
-  OL (obs_ops locs ds users ops fs0).
+  OL (obs_ops locs ds users ops fs0 (OL [])).
